@@ -54,8 +54,11 @@ def grid(quick):
     for mu, b in (("0", "1"), ("1", "1/2"), ("-1", "2"), ("1/2", "1/3")):
         add("Laplace", [mu, b], {"f": "laplace", "mu": F(mu), "b": F(b)},
             affine={"d0": {"f": "laplace", "mu": F(0), "b": F(b)}, "loc": F(mu), "scale": F(1)})
-    for mu, s2, a, b in (("5", "1", "4", "6"), ("0", "1", "-1", "1"), ("0", "4", "0", "3"), ("2", "1/4", "1", "5/2")):
-        add("TruncNormal", [mu, s2, a, b], {"f": "truncnormal", "a": F(a), "b": F(b)}, transforms=False, no_moments=True)
+    for mu, s2, a, b in (("5", "1", "4", "6"), ("0", "1", "-1", "1"), ("0", "4", "0", "3"), ("2", "1/4", "1", "5/2"), ("1", "1", "0", "2"),
+                         ("-3", "2", "-5", "-1"), ("1/2", "1/9", "0", "1")):
+        sym = F(a) + F(b) == 2 * F(mu)
+        add("TruncNormal", [mu, s2, a, b], {"f": "truncnormal", "a": F(a), "b": F(b), "mu": F(mu)}, transforms=False, no_moments=True,
+            mean_only=sym)
     for i, g in enumerate(G):
         g["did"] = f"d{i}"
     return G
@@ -96,6 +99,8 @@ def table_part(run, quick):
         rows = []
         for k, row in enumerate(o["rows"]):
             rr = {"k": k}
+            if g.get("mean_only") and k <= 1 and "moment" in row:
+                rr["moment"] = q(row["moment"])         # symmetric truncation: the mean is mu (exact by symmetry)
             if not g.get("no_moments"):
                 if "moment" in row:
                     rr["moment"] = q(row["moment"])
